@@ -181,6 +181,10 @@ func (b *bitstream) Next() error {
 
 	// Found the end of the file.
 	if c == -1 {
+		if !b.stack.empty() {
+			// The enclosing container claims more bytes than the input holds.
+			return &UnexpectedEOFError{b.pos}
+		}
 		b.code = bitcodeEOF
 		return nil
 	}
@@ -1069,7 +1073,7 @@ func (b *bitstream) skip(n uint64) error {
 	b.pos += uint64(actual)
 
 	if err == io.EOF {
-		return nil
+		return &UnexpectedEOFError{b.pos}
 	}
 	if err != nil {
 		return &IOError{err}
